@@ -8,15 +8,18 @@ RULE = ("layer 1 (helpers): divideFundsEvenly exhaustively on amount 0..60 (thor
         "layer 3 (execution): seeded schedules of the real deploy.Deploy on an in-process chain: quick n in {1,2,3} (+ bootstrap-only n in {2,4,7}), thorough n = 1..7 x "
         "{all at once | 3 x (seeded start delays + a minority of non-leading members absent until the Notary role is designated + one member "
         "cancelled at a seeded block and restarted) | the leader cancelled early | another cancel point}, each followed by a second run of all members; "
-        "thorough also 2 upgrade schedules (previous-version executables on chain, the procedure with the supplied ones entered "
+        "restart inside the window between two role stages: n = 1 cancelled k blocks after the chain first shows the Notary role (k = 0..2; the anchor is "
+        "observed on the chain) and right after the NeoFSAlphabet designation; thorough: n = 1 restarted at EVERY block 1..75 of its run, k = 0..4 / 0..2 "
+        "after the Notary / Alphabet designation, ALL members of n = 2..5 restarted 0..1 blocks after the Notary designation (n = 4 also 2 blocks after, "
+        "after the Alphabet designation, at a seeded block, and all but the leader); thorough also 2 upgrade schedules (previous-version executables on chain, the procedure with the supplied ones entered "
         "shortly before a multiple of 100 with seeded delays: every contract updated exactly once, next run inert); bootstrap-only schedules (exact majorities with the leader, leader + last members, sets that must stall) compared with the "
         "bootstrap model. distinct_nontrivial = distinct (operation, observation) pairs that did not end in a panic/error")
 PROPS = {
     "C13": dict(lean=["NeoFS.Props.C13"], custom="deploy_flow", harness="mininode", driver="drv_deploy", monitors=["C13"],
-                shards=dict(helpers=dict(quick=1, thorough=8), node=dict(quick=3, thorough=8)), parallel=8, rule=RULE,
+                shards=dict(helpers=dict(quick=1, thorough=8), node=dict(quick=6, thorough=12)), parallel=12, rule=RULE,
                 trusted=["layer 3 is validation by execution: neo-go's in-process chain, RPC server, Notary service and WebSocket client, "
                          "goroutine scheduling and real time; outcomes of sampled schedules are checked, interleavings are not enumerated",
-                         "extract/deployfacts.go (go/ast recognition of the leader/signer index expressions and loop bounds)",
+                         "extract/deployfacts.go (go/ast recognition of the leader/signer index expressions and loop bounds, and of the role constants named by checkCommitteeRoles, the role stages and initVoteForAlphabet)",
                          "SHA-256 and ECDSA are parameters of the models (digest passed by the harness; signatures abstracted to (signer, data))"],
                 assumptions=["Notary bootstrap model: deterministic rounds (every live member ticks once per block, a sent transaction is in the next block), "
                              "no RPC or GAS failures, records in the bootstrap domains are written by committee members only, 4-byte checksum collisions ignored",
@@ -36,6 +39,8 @@ CLAIMS = {
              "run at any round and restarting any set of members; generic in the index maps it completes for a live set iff enough collectible signers "
              "are live (the pre-fix maps provably never complete for n = 2); under every schedule the designation transaction the leader composes "
              "carries exactly M = n-(n-1)/2 valid signatures of distinct members in key order; once the role is visible nobody sends anything. "
+             "Role stages (stage-level model over the regenerated table of WHICH role each pre-check, stage loop and designation names): every pre-check "
+             "queries its own stage's role, so a run (re)started on a chain in any role state gets through both role stages and initVoteForAlphabet. "
              "VALIDATION BY EXECUTION (sampling, not proof) for the orchestration: the real deploy.Deploy is run by all members of committees of 1..7 on an "
              "in-process chain under seeded schedules (start order/speed, absent minority during bootstrap, cancel + restart); the monitor checks that all runs "
              "return nil, both roles equal the committee, NNS has id 1, every system name resolves to exactly one contract carrying the supplied executable, "
